@@ -492,6 +492,12 @@ func genC02(g *Gen) {
 	_ = strings.Join
 
 	// (e) the real DiskWriter behind the real diff on a scratch directory (see c05.go)
+	c05SpecialLinks(g, func(A, Bl []flatEntry, cls string) {
+		c05EmitCase(g, 0x0203, 0, 0, uint64(g.Rng.Intn(3)), c02CloneEntries(A), c02CloneEntries(Bl), cls)
+		c02EmitResync(g, 0, 0, c02CloneEntries(A), c02CloneEntries(Bl), cls)
+		c02EmitHistory(g, c02CloneEntries(A), c02CloneEntries(Bl), c02CloneEntries(Bl), cls)
+		c02EmitHistory(g, nil, c02CloneEntries(A), c02CloneEntries(Bl), cls+"-as-history")
+	})
 	c05LinkMeta(g, 0x0203)
 	genRecvCases(g, 0x0203, g.Vol(500, 8000), false)
 
@@ -499,4 +505,9 @@ func genC02(g *Gen) {
 	// source finds nothing to do (kind 0204)
 	c02ResyncDirected(g)
 	genRecvCases(g, 0x0204, g.Vol(300, 5000), false)
+
+	// (g) histories through the real Send/Receive, source and destination listed by the real
+	// walks (kind 0205)
+	c02HistoryDirected(g)
+	c02HistoryRandom(g, g.Vol(150, 3000))
 }
